@@ -32,7 +32,12 @@ SHAPES = [
     {'req': ['x'], 'opt': [['y', ['s', 'd']]], 'varargs': True},
     {'req': ['x'], 'kwopt': [['s', ['i', 2]]]},
     {'req': ['x'], 'opt': [['y', ['i', 1]]], 'kwopt': [['s', ['i', 2]]], 'kwreq': ['r'], 'varkw': True},
+    {'varargs': True},                       # purely variadic: the key is nothing but the flattened arguments
+    {'varargs': True, 'varkw': True},
 ]
+
+# a lone argument and the text it prints as: what a key made of str()/repr() of a bare (unwrapped) argument confuses
+LOOKALIKE_ARGS = [(['i', 1], ['s', '1']), (['n'], ['s', 'None']), (['s', 'a'], ['s', "'a'"]), (['i', 0], ['s', '0']), (['t', [['i', 1]]], ['s', '(1,)'])]
 
 
 def keymap_specs_for(key_req, module, has_varargs, info_preserving_only=True, allow_default=True, unhashable_ok=False):
@@ -138,6 +143,8 @@ def near_duplicate(draw, b, valstrat, forbidden=()):
             [('xpos', i) for i in range(len(nb.get('xpos', [])))] + \
             [('kwonly', i) for i in range(len(nb.get('kwonly', [])))] + \
             [('xkw', i) for i in range(len(nb.get('xkw', [])))]
+    if not slots:
+        return nb            # a call without any argument (purely variadic signatures) has no neighbour
     kind, i = slots[draw(st.integers(0, len(slots) - 1))]
     cur = nb[kind][i] if kind == 'xpos' else nb[kind][i][1]
     if cur[0] == 's' and cur[1] and draw(st.booleans()):
@@ -237,7 +244,7 @@ def cache_cases(draw, modules=('std', 'safe'), algos=tuple(H.ALGOS), maxsizes=(1
                 backends=tuple(H.BACKENDS_ALL), weights=None, max_ops=30, min_ops=1, pool=(3, 7),
                 purges=(False, True), shapes=None, allow_default_keymap=True, ms_pos=(False,),
                 rich_args=False, info_preserving_only=True, mem_weight=0, extra=None, unhashable_ok=False, prefill_pct=0, raising_pct=0, attach_later_pct=0, confusable_pct=30,
-                tols=(None,), deeps=(False,), ignores=(None,), float_pct=0):
+                tols=(None,), deeps=(False,), ignores=(None,), float_pct=0, relpath_pct=0):
     w = dict(DEFAULT_WEIGHTS)
     w.update(weights or {})
     module = draw(st.sampled_from(modules))
@@ -297,6 +304,18 @@ def cache_cases(draw, modules=('std', 'safe'), algos=tuple(H.ALGOS), maxsizes=(1
                     nb[kind][i][1] = list(v)
                 if nb not in pool_b:
                     pool_b.append(nb)
+    if has_va and not H.sig_names(sig) and kkind != 'pyhash' and key_req not in ('evalable',) and draw(st.booleans()):
+        # purely variadic function: a pair of one-argument calls whose arguments print alike (1 / '1')
+        lookalike = []
+        for spec in draw(st.sampled_from(LOOKALIKE_ARGS)):
+            nb = {'named': [], 'xpos': [list(spec)]}
+            if sig.get('varkw'):
+                nb['xkw'] = []
+            if nb not in pool_b:
+                pool_b.append(nb)
+            lookalike.append(pool_b.index(nb))
+    else:
+        lookalike = None
     has_confusable_pair = False
     if draw(st.integers(0, 99)) < confusable_pct:
         # a pair of calls that differ ONLY in one 'confusable' character of one string argument (x:y / x|y / x_y ...):
@@ -326,8 +345,16 @@ def cache_cases(draw, modules=('std', 'safe'), algos=tuple(H.ALGOS), maxsizes=(1
     }
     if attach_later:
         case['attach_later'] = True
+    elif relpath_pct and backend.split('_', 1)[-1].startswith('dir_') and draw(st.integers(0, 99)) < relpath_pct:
+        # directory archive named by a relative path, and the program changes its working directory during the history
+        case['relpath'] = draw(st.sampled_from(['existing', 'new']))
+        for _ in range(draw(st.integers(1, 3))):
+            j = draw(st.integers(0, len(case['ops'])))
+            case['ops'] = case['ops'][:j] + [['chdir', draw(st.integers(0, 1))]] + case['ops'][j:]
     if has_confusable_pair:
         case['confusable_pair'] = True
+    if lookalike:
+        case['lookalike_pair'] = lookalike
     if tol is not None:
         case['tol'] = tol
         case['deep'] = draw(st.sampled_from(deeps))
